@@ -134,7 +134,15 @@ func beforeRecv(ch interface{}) {
 		s.recvWaiters[p]++
 		defer func() { s.recvWaiters[p]-- }()
 	}
-	s.point("chan.recv", p, func() bool { return s.recvReady(v, p) })
+	for {
+		s.point("chan.recv", p, func() bool { return s.recvReady(v, p) })
+		// between the moment the receive became possible and the moment this thread runs, another
+		// receiver may have taken the value: wait again (the real runtime hands a value to the
+		// receiver that waited first; here the order among competing receivers is the explorer's)
+		if s.aborting || s.recvReady(v, p) {
+			break
+		}
+	}
 	if s.hb != nil && !s.aborting {
 		s.hb.chanRecv(s.cur, p, v.Len() == 0 && s.closed[p])
 	}
@@ -289,7 +297,9 @@ func Select(hasDefault bool, cases ...SelCase) int {
 			return -1
 		}
 		if fired < 0 || !caseReady(fired) {
-			panic("vrt: select resumed without a ready case")
+			// another thread used up what made the case ready before this one ran: evaluate the
+			// select again from the start
+			return Select(hasDefault, cases...)
 		}
 		r = []int{fired}
 	}
